@@ -344,7 +344,11 @@ def _w4_w5(ctx, R, name, cls, funcs, module):
         if nm.startswith("__"):
             continue
         mutable = isinstance(v, (ast.List, ast.Dict, ast.Set, ast.ListComp, ast.SetComp, ast.DictComp)) or (isinstance(v, ast.Call) and norm(v.func) in ("set", "list", "dict", "deque", "OrderedDict", "collections.deque"))
-        if mutable:
+        if mutable and not _class_attr_mutated(cls, nm):
+            # a look-up table: a dict / list literal that nothing in the module ever changes (no mutating method call, item store or
+            # augmented assignment on it — directly, through self / cls / the class name, or through a local bound to it)
+            R.ok("W5", "%s.%s is class-level data that is never modified" % (cls.name, nm), cls.module.relpath)
+        elif mutable:
             R.bad("W5", "%s|class-level %s" % (cls.key, nm), cls.module.relpath,
                   "%s.%s is a mutable class attribute: it is shared by every composer in the process, so what one compose records (already written modules, ports...) changes the next compose" % (cls.name, nm))
         else:
@@ -389,6 +393,42 @@ def _w4_w5(ctx, R, name, cls, funcs, module):
             if used:
                 R.bad("W5", "%s|global %s" % (module.relpath, gname), module.relpath, "module-level container %s is mutated while composing" % gname)
     return n
+
+
+_MUTATORS = {"append", "extend", "insert", "update", "pop", "remove", "clear", "add", "discard", "setdefault", "sort", "reverse", "popitem", "appendleft",
+             "popleft", "difference_update", "intersection_update", "symmetric_difference_update", "__setitem__", "__delitem__"}
+
+
+def _class_attr_mutated(cls, nm):
+    """some statement of the module can change the object bound to class attribute `nm`"""
+    def denotes(e, aliases):
+        if isinstance(e, ast.Attribute) and e.attr == nm and isinstance(e.value, ast.Name) and e.value.id in ("self", "cls", cls.name):
+            return True
+        if isinstance(e, ast.Name) and (e.id in aliases):
+            return True
+        return False
+    for fn in [x for x in ast.walk(cls.module.tree) if isinstance(x, (ast.FunctionDef, ast.AsyncFunctionDef))] + [cls.node]:
+        aliases = {a.targets[0].id for a in ast.walk(fn) if isinstance(a, ast.Assign) and len(a.targets) == 1 and isinstance(a.targets[0], ast.Name)
+                   and denotes(a.value, set())}
+        if fn is cls.node:
+            aliases = {nm}  # inside the class body the bare name is the attribute
+        for x in ast.walk(fn):
+            if isinstance(x, ast.Call) and isinstance(x.func, ast.Attribute) and x.func.attr in _MUTATORS and denotes(x.func.value, aliases):
+                return True
+            if isinstance(x, ast.Subscript) and isinstance(x.ctx, (ast.Store, ast.Del)) and denotes(x.value, aliases):
+                return True
+            if isinstance(x, ast.AugAssign) and denotes(x.target, aliases):
+                return True
+            if isinstance(x, (ast.Assign, ast.Delete)) and fn is not cls.node:
+                tg = x.targets
+                if any(isinstance(t, ast.Attribute) and t.attr == nm and isinstance(t.value, ast.Name) and t.value.id in ("cls", cls.name) for t in tg):
+                    return True
+            # handed to something that may keep or change it
+            if isinstance(x, ast.Call) and any(denotes(a_, aliases) for a_ in list(x.args) + [k.value for k in x.keywords]) \
+                    and not (isinstance(x.func, ast.Name) and x.func.id in ("len", "isinstance", "iter", "next", "sorted", "list", "tuple", "set", "frozenset",
+                                                                             "dict", "enumerate", "zip", "any", "all", "str", "repr", "print", "min", "max", "sum")):
+                return True
+    return False
 
 
 @register("C16",
